@@ -413,7 +413,8 @@ def _canon(x, key=None):
                     att.append(flag)
                 d.pop(flag, None)
             d["attribs"] = tuple(sorted(att))
-            return tuple((k, _canon(v) if k != "attribs" else v) for k, v in sorted(d.items()))
+            # `permission` is FORD's own vocabulary (compared with the lower-case words everywhere): reported as is
+            return tuple((k, _canon(v) if k not in ("attribs", "permission") else v) for k, v in sorted(d.items()))
         return tuple(_canon(y) for y in x)
     if isinstance(x, str):
         return "".join(x.lower().split())
@@ -563,6 +564,7 @@ TEMPLATES = {
         ["contains", "CONTAINS", "Contains"],
         ["procedure :: p1 => impl1", "PROCEDURE :: P1 => IMPL1", "procedure::p1=>impl1", "procedure p1 => impl1"],
         ["procedure, nopass :: a, b", "PROCEDURE, NOPASS :: A, B", "procedure,nopass::a,b"],
+        ["procedure, private :: hid => impl2", "PROCEDURE, PRIVATE :: HID => IMPL2", "procedure,Private::hid=>impl2", "procedure , private :: hid => impl2"],
         ["generic :: g => a, b", "GENERIC :: G => A, B", "Generic :: g => a, b", "generic::g=>a,b"],
         ["final :: fin", "FINAL :: FIN", "final::fin"],
         ["end type t", "end type", "endtype t", "END TYPE T"],
@@ -657,7 +659,7 @@ EXPECTED = {
     "attribute-statements-2": {"modules": [["m", {"variables": [["n", {}], ["q", {}], ["p", {}], ["t", {}]]}]]},
     "attribute-statements-shared-line": {"modules": [["m", {"variables": [["first", {}], ["second", {}], ["n1", {}], ["n2", {}]]}]]},
     "attribute-statements-optional": {"subroutines": [["s", {"args": [["w", {}]]}]]},
-    "types": {"modules": [["m", {"types": [["t", {"boundprocs": [["p1", {}], ["b", {}], ["a", {}], ["g", {}]],
+    "types": {"modules": [["m", {"types": [["t", {"boundprocs": [["p1", {}], ["b", {}], ["a", {}], ["hid", {}], ["g", {}]],
                                                   "finalprocs": [["fin", {}]], "variables": [["c", {}]]}]]}]]},
     "interfaces": {"modules": [["m", {"interfaces": [["gen", {"modprocs": [["a", {}], ["b", {}]]}]], "absinterfaces": [["af", {}]]}]]},
     "units": {"submodules": [["child", {"modprocedures": [["impl", {}]]}]],
